@@ -25,6 +25,9 @@ type Violation struct {
 	PathLen int
 	Regions []string
 	Harness string
+	// Scheduled: the path had taken the harness-requested preemption (vsymPreemptAt) when the
+	// violation occurred, i.e. the counterexample is an input vector AND a schedule
+	Scheduled bool
 }
 
 type InputVal struct {
@@ -332,6 +335,7 @@ func (p *Path) recordViolation(kind, label, detail string, m *Machine) {
 	v := Violation{Label: label, Kind: kind, Detail: detail, PathLen: len(p.Trace), Regions: append([]string(nil), p.Regions...)}
 	if m != nil {
 		v.Stack = m.stackString()
+		v.Scheduled = m.preemptHit
 	}
 	if err != nil {
 		v.Detail += " (model error: " + err.Error() + ")"
